@@ -37,12 +37,23 @@ func (c *FnVC) loopWrites(li *loopInfo) (map[string][]string, bool, bool) {
 				return "EXACT:" + c.v(a)
 			}
 		}
+		if _, isPtr := a.Type().Underlying().(*types.Pointer); isPtr {
+			if t, ok := c.hoistTerm(a, outside, 0); ok {
+				return "EXACT:" + t // loop-invariant address recomputed inside the loop
+			}
+		}
 		switch x := a.(type) {
 		case *ssa.Alloc:
 			return "false" // allocated inside the loop: a fresh object
 		case *ssa.FieldAddr:
 			return rootPat(c, x.X, outside, depth)
 		case *ssa.IndexAddr:
+			// element of a loop-invariant slice with single-leaf elements: only the
+			// slice's own elements can be written (the index is checked to be in range)
+			if st, ok := x.X.Type().Underlying().(*types.Slice); ok && outside(x.X) && c.te.kindOf(st.Elem()) != "" {
+				s := c.v(x.X)
+				return fmt.Sprintf("(inrange l %s #x0000000000000000 (s_len %s))", s, s)
+			}
 			return rootPat(c, x.X, outside, depth)
 		}
 		return "true"
@@ -86,10 +97,7 @@ func (c *FnVC) loopWrites(li *loopInfo) (map[string][]string, bool, bool) {
 						if st, ok := cc.Args[0].Type().Underlying().(*types.Slice); ok {
 							ks := map[string]bool{}
 							c.te.leafKinds(st.Elem(), ks)
-							pat := "true"
-							if outside(cc.Args[0]) {
-								pat = fmt.Sprintf("(= (base l) (base (s_arr %s)))", c.v(cc.Args[0]))
-							}
+							pat := rootPat(c, cc.Args[0], outside, 0)
 							for k := range ks {
 								add(k, pat)
 							}
@@ -98,10 +106,7 @@ func (c *FnVC) loopWrites(li *loopInfo) (map[string][]string, bool, bool) {
 						if st, ok := cc.Args[0].Type().Underlying().(*types.Slice); ok {
 							ks := map[string]bool{}
 							c.te.leafKinds(st.Elem(), ks)
-							pat := "true"
-							if outside(cc.Args[0]) {
-								pat = fmt.Sprintf("(= (base l) (base (s_arr %s)))", c.v(cc.Args[0]))
-							}
+							pat := rootPat(c, cc.Args[0], outside, 0)
 							for k := range ks {
 								add(k, pat)
 							}
@@ -222,6 +227,26 @@ func rootPat(c *FnVC, x ssa.Value, outside func(ssa.Value) bool, depth int) stri
 		return "true"
 	}
 	switch y := x.(type) {
+	case *ssa.Phi:
+		// a slice variable of this loop that is only ever re-sliced or appended to: its
+		// backing array is either the one it had on loop entry or one allocated later
+		if li := c.loops[y.Block()]; li != nil && li.phiEntry != nil {
+			if st, isSl := y.Type().Underlying().(*types.Slice); isSl && c.phiKeepsArray(li, y) {
+				e := li.phiEntry[y]
+				if c.te.kindOf(st.Elem()) != "" && c.phiAppendOnly(li, y) {
+					// only ever appended to: in-place appends write into the spare
+					// capacity the slice had on loop entry, nothing below its length
+					return fmt.Sprintf("(inrange l %s (s_len %s) (s_cap %s))", e, e, e)
+				}
+				return fmt.Sprintf("(= (base l) (base (s_arr %s)))", e)
+			}
+		}
+		return "true"
+	case *ssa.Call:
+		if bi, ok := y.Call.Value.(*ssa.Builtin); ok && bi.Name() == "append" {
+			return rootPat(c, y.Call.Args[0], outside, depth+1)
+		}
+		return "true"
 	case *ssa.Alloc:
 		return "false"
 	case *ssa.MakeSlice:
@@ -404,14 +429,19 @@ func (c *FnVC) loopHeader(li *loopInfo, reachName string) {
 func (c *FnVC) invEval(li *loopInfo, phis map[*ssa.Phi]string, heap HeapState) *evalCtx {
 	env := c.paramEnv()
 	// phi-bound names
+	phiNames := map[string]bool{}
 	for p, t := range phis {
 		if nm := p.Comment; nm != "" {
 			env[nm] = envVal{t, p.Type()}
+			phiNames[nm] = true
 		}
 	}
 	// other locals: latest debug ref dominating the header, allocs by comment
 	for obj, refs := range c.debug {
 		nm := obj.Name()
+		if phiNames[nm] {
+			continue
+		}
 		if _, ok := env[nm]; ok {
 			if _, isParam := c.paramByName(nm); !isParam {
 				continue
@@ -608,8 +638,14 @@ func (c *FnVC) autoInvariants(li *loopInfo, phis []*ssa.Phi) {
 		// find an upper bound from a dominating comparison in the header: (phi' < X) or (phi < X)
 		var bound ssa.Value
 		cmpOnNext := false
+		// a bound is loop-invariant if it is defined outside the loop, or is len/cap of a
+		// slice or string value defined outside the loop (SSA values are immutable)
+		invariantBound := func(v ssa.Value) bool {
+			_, ok := c.hoistTerm(v, outside, 0)
+			return ok
+		}
 		if iff, ok := li.header.Instrs[len(li.header.Instrs)-1].(*ssa.If); ok {
-			if bo, ok := iff.Cond.(*ssa.BinOp); ok && bo.Op == token.LSS && outside(bo.Y) && li.blocks[li.header.Succs[0]] {
+			if bo, ok := iff.Cond.(*ssa.BinOp); ok && bo.Op == token.LSS && invariantBound(bo.Y) && li.blocks[li.header.Succs[0]] {
 				if bo.X == phi {
 					bound = bo.Y
 				} else if isIncrOf(bo.X, phi) && len(steps) == 1 && steps[0] == bo.X {
@@ -623,7 +659,14 @@ func (c *FnVC) autoInvariants(li *loopInfo, phis []*ssa.Phi) {
 			mk:    func(m map[*ssa.Phi]string) string { return fmt.Sprintf("(bvsle %s %s)", initT, m[p]) },
 		})
 		if bound != nil {
-			bt := c.toI64(bound)
+			bt, _ := c.hoistTerm(bound, outside, 0)
+			if w, signed, ok := c.te.intWidth(bound.Type()); ok && w < 64 {
+				if signed {
+					bt = fmt.Sprintf("((_ sign_extend %d) %s)", 64-w, bt)
+				} else {
+					bt = fmt.Sprintf("((_ zero_extend %d) %s)", 64-w, bt)
+				}
+			}
 			if cmpOnNext {
 				// range loop: phi in [-1, X)
 				li.autoInv = append(li.autoInv, autoInv{
@@ -664,4 +707,56 @@ func isIncrOf(v ssa.Value, phi *ssa.Phi) bool {
 		return false
 	}
 	return k.Int64() > 0 && k.Int64() < 1<<20
+}
+
+// hoistTerm: the SMT term of a loop-invariant pure value that may be (re)computed inside
+// the loop: a value defined outside the loop, or len/cap/field selection applied to such
+// values (SSA values are immutable, so these do not change between iterations).
+func (c *FnVC) hoistTerm(v ssa.Value, outside func(ssa.Value) bool, depth int) (string, bool) {
+	if depth > 6 {
+		return "", false
+	}
+	if outside(v) {
+		return c.v(v), true
+	}
+	switch x := v.(type) {
+	case *ssa.Call:
+		bi, ok := x.Call.Value.(*ssa.Builtin)
+		if !ok || (bi.Name() != "len" && bi.Name() != "cap") || len(x.Call.Args) != 1 {
+			return "", false
+		}
+		a := x.Call.Args[0]
+		at, ok := c.hoistTerm(a, outside, depth+1)
+		if !ok {
+			return "", false
+		}
+		switch u := a.Type().Underlying().(type) {
+		case *types.Slice:
+			return fmt.Sprintf("(s_%s %s)", bi.Name(), at), true
+		case *types.Basic:
+			return fmt.Sprintf("(str_len %s)", at), true
+		case *types.Array:
+			return bv64(u.Len()), true
+		case *types.Pointer:
+			if arr, ok := u.Elem().Underlying().(*types.Array); ok {
+				return bv64(arr.Len()), true
+			}
+		}
+	case *ssa.Field:
+		xt, ok := c.hoistTerm(x.X, outside, depth+1)
+		if !ok {
+			return "", false
+		}
+		st := x.X.Type().Underlying().(*types.Struct)
+		return fmt.Sprintf("(%s_f%d %s)", c.te.structOf(st).name, x.Field, xt), true
+	case *ssa.ChangeType:
+		return c.hoistTerm(x.X, outside, depth+1)
+	case *ssa.FieldAddr:
+		xt, ok := c.hoistTerm(x.X, outside, depth+1)
+		if !ok {
+			return "", false
+		}
+		return fmt.Sprintf("(fld %s %d)", xt, x.Field), true
+	}
+	return "", false
 }
